@@ -202,6 +202,17 @@ func (f *file) Close() error {
 	return nil
 }
 
+// Size returns the current size of this file's contents.
+// Another handle may have changed the contents since this handle's record was fetched, so the fetch-time size can't be used here.
+func (f *file) Size() int64 {
+	if f.Mode().IsRegular() {
+		if data, err := f.Data(); err == nil {
+			return int64(data.Len())
+		}
+	}
+	return f.fileData.Size()
+}
+
 func (f *file) updateModTime() {
 	f.modTimeOverride = time.Now()
 }
@@ -320,6 +331,7 @@ func (f *file) writeBlobAt(op string, p blob.Blob, off int64) (n int, err error)
 }
 
 func (f *file) Stat() (hackpadfs.FileInfo, error) {
+	_ = f.Size() // report the current size, not the size at fetch time
 	return fileInfo{Record: &f.runOnceFileRecord, Path: f.path}, nil
 }
 
